@@ -21,6 +21,7 @@ from __future__ import annotations
 
 import ast
 import copy
+import re as _re
 from typing import Callable, Dict, List, Optional, Tuple
 
 from . import q
@@ -130,6 +131,7 @@ class Evaluator:
         self.funcs = funcs or {}
         self.on_call = on_call
         self.modset = modset  # dotted "self.m" -> set of self attributes the method may assign (None: not a method)
+        self.max_unroll = 2  # bounded unrolling of `while` loops whose condition stays true/unknown
         self.handler_names: Callable = q.handler_names  # rules may resolve module-level tuple constants in `except` clauses
         self.fallback: Optional[Callable] = None  # (state, call ast, dotted, args) -> value | NotImplemented, for calls that are not interpreted
         self.inline: Optional[Callable] = None  # dotted "self.m" -> FunctionDef to interpret at statement level (else havoc by mod-set)
@@ -368,6 +370,28 @@ class Evaluator:
             m = c.func.attr
             if recv is None:
                 raise Raised("AttributeError")
+            if isinstance(recv, (bytes, bytearray)) and m in ("find", "startswith", "endswith", "index", "count", "decode") and all(a is not UNK for a in args) and not kwargs:
+                try:
+                    return getattr(recv, m)(*args)
+                except ValueError:
+                    raise Raised("ValueError")
+                except Exception:
+                    return UNK
+            if isinstance(recv, _re.Pattern) and m in ("search", "match", "fullmatch", "split") and all(a is not UNK for a in args) and not kwargs:
+                try:
+                    return getattr(recv, m)(*args)
+                except Exception:
+                    return UNK
+            if isinstance(recv, _re.Match) and m in ("start", "end", "group", "groups", "span") and all(a is not UNK for a in args) and not kwargs:
+                try:
+                    return getattr(recv, m)(*args)
+                except Exception:
+                    return UNK
+            if isinstance(recv, dict) and m == "pop" and args and all(a is not UNK for a in args) and not kwargs:
+                try:
+                    return recv.pop(*args)
+                except KeyError:
+                    raise Raised("KeyError")
             if isinstance(recv, list) and m == "append" and len(args) == 1 and not kwargs:
                 recv.append(args[0])
                 return None
@@ -454,12 +478,19 @@ class Evaluator:
             k = self.ev(t.slice, st) if not isinstance(t.slice, ast.Slice) else UNK
             if isinstance(b, (HeaderMap, dict)) and k is not UNK:
                 b[k] = v
+            elif isinstance(b, list) and isinstance(k, int) and not isinstance(k, bool):
+                try:
+                    b[k] = v
+                except IndexError:
+                    raise Raised("IndexError")
             elif isinstance(b, list) and isinstance(t.value, ast.Name):
                 st.env[t.value.id] = UNK
         elif isinstance(t, (ast.Tuple, ast.List)):
             if isinstance(v, (tuple, list)) and len(v) == len(t.elts):
                 for x, y in zip(t.elts, v):
                     self._assign(x, y, st)
+            elif isinstance(v, (tuple, list)) and not any(isinstance(x, ast.Starred) for x in t.elts):
+                raise Raised("ValueError")  # wrong number of values to unpack
             else:
                 for x in t.elts:
                     self._assign(x, UNK, st)
@@ -652,7 +683,7 @@ class Evaluator:
         if isinstance(s, ast.While):
             out = []
             cur = [st]
-            for _round in range(2):
+            for _round in range(self.max_unroll):
                 nxt = []
                 for x in cur:
                     for y, truth in self._branch(s.test, x):
